@@ -668,6 +668,11 @@ pub enum WriteFault {
     IoErr { call: u32, errkind: String },
     /// `Ok(0)`: `write_all` must turn it into `WriteZero`
     Zero { call: u32 },
+    /// the sink PANICS at this call (a caller's `Write` impl with a bug, or one that is meant to
+    /// unwind - a cancellation); the simulated caller catches it and goes on using the library.
+    /// Whatever the writer held at that moment (a lock, a scratch buffer) is its to clean up.
+    /// (Shadow build: a hard error instead - no panics are injected there.)
+    Panic { call: u32 },
     /// the `flush`-th call of `flush` returns `ErrorKind::Interrupted` (nothing is lost: the sink
     /// keeps what it accepted). A writer may retry or give the error back.
     FlushEintr { flush: u32 },
@@ -686,6 +691,7 @@ impl WriteFault {
             | WriteFault::Eintr { call }
             | WriteFault::WouldBlock { call }
             | WriteFault::IoErr { call, .. }
+            | WriteFault::Panic { call }
             | WriteFault::Zero { call } => *call,
             // flush faults index flush calls, the sink mode indexes nothing
             WriteFault::FlushEintr { .. } | WriteFault::FlushErr { .. } | WriteFault::Vectored => u32::MAX,
@@ -701,6 +707,7 @@ impl WriteFault {
             WriteFault::WouldBlock { .. } => "wouldblock",
             WriteFault::IoErr { .. } => "io_err",
             WriteFault::Zero { .. } => "zero",
+            WriteFault::Panic { .. } => "sink_panic",
             WriteFault::FlushEintr { .. } => "flush_eintr",
             WriteFault::FlushErr { .. } => "flush_err",
             WriteFault::Vectored => "vectored_sink",
@@ -797,6 +804,14 @@ impl std::io::Write for FaultyWriter {
                         self.hard_error_at.get_or_insert(call);
                         self.hard_error_kind.get_or_insert(errkind(&k));
                         Err(errkind(&k).into())
+                    }
+                    WriteFault::Panic { .. } => {
+                        self.hard_error_at.get_or_insert(call);
+                        self.hard_error_kind.get_or_insert(std::io::ErrorKind::Other);
+                        if cfg!(feature = "shadow") || std::thread::panicking() {
+                            return Err(std::io::ErrorKind::Other.into());
+                        }
+                        panic!("{INJECTED}");
                     }
                     WriteFault::Zero { .. } => {
                         if buf.is_empty() {
